@@ -2,7 +2,7 @@
 # apply each behaviour-preserving patch under /verif/benign to /repo, run every check, expect NO violation; revert
 cd /verif
 export VERIF_EVIDENCE_DIR=$(mktemp -d /tmp/verif-ev.XXXXXX)
-for p in ${@:-benign/*.diff}; do
+for p in ${@:-benign/*.diff benign/agents/*.diff}; do
   echo "== $p"
   git -C /repo apply $PWD/$p || { echo "  does not apply"; continue; }
   for id in $(python3 -c "import json;print(' '.join(c['property_id'] for c in json.load(open('MANIFEST.json'))['checks']))"); do
